@@ -28,30 +28,24 @@ Fixpoint html_escape (s : bytes) : bytes :=
        else [c]) ++ html_escape r
   end.
 
-Section Skel.
-Variable sink_st : Type.
-Variable sink : sink_st -> bytes -> nat * option err * sink_st.
-Variable cap : nat.
-Variable sw : bool.                            (* the destination implements io.StringWriter *)
-Variable flusher : bool.                       (* the destination implements http.Flusher *)
-Variable esc : bytes -> bytes.
-Variable env : list nat -> N -> bytes * option N.
-Variable benv : list nat -> N -> bool.
-Variable senv : list nat -> N -> nat.
-Variable cnt : list nat -> N -> nat.
-Variable cancel : option N.
+(* Everything below takes the destination (its state type and its step function) as an ordinary argument: a block of
+   children that a hand-written component renders into a writer of its own runs on ANOTHER destination - that writer,
+   with the enclosing render's buffer and destination behind it - so [run] calls itself at a different destination type. *)
 
-Notation worldT := (world sink_st).
 (* what a component sees: the shared *runtime.Buffer and, behind it, the destination *)
-Record rstate := { rb : bw; rw : worldT }.
+Record rstate (sink_st : Type) := { rb : bw; rw : world sink_st }.
+Arguments rb {sink_st} _.
+Arguments rw {sink_st} _.
 
 (* Buffer.WriteString / Buffer.Write: the bufio loop on enough fuel for a destination that honours io.Writer *)
-Definition do_write (direct : bool) (st : rstate) (s : bytes) : rstate * option err :=
+Definition do_write (sink_st : Type) (sink : sink_st -> bytes -> nat * option err * sink_st) (cap : nat)
+                    (direct : bool) (st : rstate sink_st) (s : bytes) : rstate sink_st * option err :=
   let '(b, w) := bw_write sink_st sink cap direct (length s + 2) (rb st) (rw st) s in
   ({| rb := b; rw := w |}, berr b).
 
 (* runtime.Buffer.Flush: bufio flush, then the destination's http.Flusher *)
-Definition buffer_flush (st : rstate) : rstate * option err :=
+Definition buffer_flush (sink_st : Type) (sink : sink_st -> bytes -> nat * option err * sink_st) (flusher : bool)
+                        (st : rstate sink_st) : rstate sink_st * option err :=
   let '(b, w) := bw_flush sink_st sink (rb st) (rw st) in
   match berr b with
   | Some x => ({| rb := b; rw := w |}, Some x)
@@ -63,9 +57,10 @@ Definition buffer_flush (st : rstate) : rstate * option err :=
 
 (* a statement sequence with `if err != nil { return err }` after every statement *)
 Section SeqR.
+Variable sink_st : Type.
 Variable A : Type.
-Variable f : A -> rstate -> rstate * option err.
-Fixpoint seq_r (l : list A) (st : rstate) : rstate * option err :=
+Variable f : A -> rstate sink_st -> rstate sink_st * option err.
+Fixpoint seq_r (l : list A) (st : rstate sink_st) : rstate sink_st * option err :=
   match l with
   | [] => (st, None)
   | x :: r => let '(st1, e) := f x st in
@@ -76,55 +71,156 @@ Fixpoint seq_r (l : list A) (st : rstate) : rstate * option err :=
   end.
 End SeqR.
 
-Definition run_op (o : fop) (st : rstate) : rstate * option err :=
+Definition run_op (sink_st : Type) (sink : sink_st -> bytes -> nat * option err * sink_st) (cap : nat) (sw : bool)
+                  (o : fop) (st : rstate sink_st) : rstate sink_st * option err :=
   match o with
-  | FWrite p => do_write true st p
-  | FWriteString s => do_write sw st s
+  | FWrite p => do_write sink_st sink cap true st p
+  | FWriteString s => do_write sink_st sink cap sw st s
   | FFail n => (st, Some (EComp n))
   end.
 
-(* a component rendered with the shared buffer as its writer *)
 (* generator.go writeIfExpression / writeSwitchExpression / writeConditionalAttribute / writeBoolExpressionAttribute:
    the condition as Go evaluates it *)
-Definition test (path : list nat) (c : cond) : bool :=
+Definition test (benv : list nat -> N -> bool) (senv : list nat -> N -> nat) (path : list nat) (c : cond) : bool :=
   match c with
   | CBool id => benv path id
   | CCase id k => Nat.eqb (senv path id) k
   end.
 
-Fixpoint run (n : node) (path : list nat) (st : rstate) : rstate * option err :=
+(* bytes.Buffer as a destination: accepts everything, implements io.StringWriter, no Flush *)
+Definition buffer_sink (s : unit) (p : bytes) : nat * option err * unit := (length p, None, tt).
+
+(* ---------- a block of children rendered into a writer that is not the enclosing render's *runtime.Buffer ---------- *)
+(* generator.go writeBlockTemplElementExpression emits the block as a closure with the same prologue as a template
+   (writeTemplBuffer) but no ctx.Err check.  Handed a writer that is not a *runtime.Buffer, GetBuffer takes a pooled
+   buffer and Resets it onto that writer (as new, whatever the pool held: Buffer.Reset), the body writes into it,
+   and the deferred ReleaseBuffer flushes it; the closure adopts the flush error if the body returned nil.
+   own = true is the code; own = false (the block does not release the buffer it took) is kept to show what that
+   release is for: RenderSkelProof.block_without_own_release. *)
+Definition closure_top (sink_st : Type) (sink : sink_st -> bytes -> nat * option err * sink_st) (flusher : bool) (own : bool)
+                       (body : rstate sink_st -> rstate sink_st * option err) (w0 : world sink_st)
+  : option err * world sink_st :=
+  let '(st1, e) := body {| rb := bw_reset bw_fresh; rw := w0 |} in
+  if own then
+    let '(st2, fe) := buffer_flush sink_st sink flusher st1 in
+    (match e with Some x => Some x | None => fe end, rw st2)
+  else (e, rw st1).
+
+(* the component renders the block k times, stopping at the first error *)
+Fixpoint closure_times {W : Type} (f : W -> option err * W) (k : nat) (w : W) : option err * W :=
+  match k with
+  | O => (None, w)
+  | S k' => let '(e, w1) := f w in
+            match e with
+            | Some _ => (e, w1)
+            | None => closure_times f k' w1
+            end
+  end.
+
+(* the component's own forwarding writer: how many bytes it may still take, and whether it has failed *)
+Record hstate := { h_rem : option nat; h_trip : bool }.
+
+(* fw.Write(p) for the forwarding writer of a hand-written component, in front of the *runtime.Buffer st that component
+   was given:     if fw.failed { return 0, fw.err }
+                  q := p; if fw.limited && len(p) > fw.rem { q = p[:fw.rem] }
+                  n, err := fw.w.Write(q); fw.rem -= n                     (Buffer.Write = bufio.Writer.Write)
+                  if err != nil { return n, err }
+                  if len(q) < len(p) { fw.failed = true; return n, fw.err }
+                  return n, nil
+   n counts the bytes bufio.Writer.Write consumed: copied into its buffer or accepted by what is behind it. *)
+Definition fwd_step (sink_st : Type) (sink : sink_st -> bytes -> nat * option err * sink_st) (cap : nat) (x : N)
+                    (s : hstate * rstate sink_st) (p : bytes) : nat * option err * (hstate * rstate sink_st) :=
+  let h := fst s in
+  let st := snd s in
+  if h_trip h then (0, Some (EComp x), s)
+  else
+    let q := match h_rem h with Some r => firstn r p | None => p end in
+    let '(st', e) := do_write sink_st sink cap true st q in
+    let n := length (recv (rw st')) + length (buf (rb st')) - (length (recv (rw st)) + length (buf (rb st))) in
+    let rem' := match h_rem h with Some r => Some (r - n) | None => None end in
+    match e with
+    | Some y => (n, Some y, ({| h_rem := rem'; h_trip := false |}, st'))
+    | None => if length q <? length p
+              then (n, Some (EComp x), ({| h_rem := rem'; h_trip := true |}, st'))
+              else (n, None, ({| h_rem := rem'; h_trip := false |}, st'))
+    end.
+
+(* a hand-written component that renders the block through a forwarding writer of its own *)
+Definition host_fwd (sink_st : Type) (sink : sink_st -> bytes -> nat * option err * sink_st) (cap : nat) (own : bool)
+                    (limit : option nat) (x : N) (own_first : bool) (times : nat)
+                    (body : rstate (hstate * rstate sink_st) -> rstate (hstate * rstate sink_st) * option err)
+                    (st : rstate sink_st) : rstate sink_st * option err :=
+  let '(r, w') := closure_times (closure_top (hstate * rstate sink_st) (fwd_step sink_st sink cap x) false own body) times
+                    {| sst := ({| h_rem := limit; h_trip := false |}, st); recv := []; log := []; marks := [] |} in
+  (snd (sst w'), if own_first && h_trip (fst (sst w')) then Some (EComp x) else r).
+
+(* ... into a bytes.Buffer of its own, copied to the writer it was given once the children have returned nil *)
+Definition host_capture (sink_st : Type) (sink : sink_st -> bytes -> nat * option err * sink_st) (cap : nat) (own : bool)
+                        (times : nat) (body : rstate unit -> rstate unit * option err)
+                        (st : rstate sink_st) : rstate sink_st * option err :=
+  let '(r, w') := closure_times (closure_top unit buffer_sink false own body) times
+                    {| sst := tt; recv := []; log := []; marks := [] |} in
+  match r with
+  | Some e => (st, Some e)
+  | None => do_write sink_st sink cap true st (recv w')
+  end.
+
+(* a component rendered with the shared buffer as its writer *)
+Fixpoint run (sink_st : Type) (sink : sink_st -> bytes -> nat * option err * sink_st) (cap : nat)
+             (sw : bool)                            (* the destination implements io.StringWriter *)
+             (flusher : bool)                       (* the destination implements http.Flusher *)
+             (esc : bytes -> bytes) (env : list nat -> N -> bytes * option N) (benv : list nat -> N -> bool)
+             (senv : list nat -> N -> nat) (cnt : list nat -> N -> nat) (cancel : option N)
+             (n : node) (path : list nat) (st : rstate sink_st) {struct n} : rstate sink_st * option err :=
   match n with
-  | Lit s => do_write sw st s                                   (* runtime/watchmode.go WriteString -> io.WriteString *)
+  | Lit s => do_write sink_st sink cap sw st s                  (* runtime/watchmode.go WriteString -> io.WriteString *)
   | Expr id f l c =>
       match env path id with
       | (_, Some x) => (st, Some (ETempl f l c (EExpr x)))       (* writeExpressionErrorHandler *)
-      | (v, None) => do_write sw st (esc v)
+      | (v, None) => do_write sink_st sink cap sw st (esc v)
       end
   | Templ g body =>
       if g then match cancel with
                 | Some c => (st, Some (ECtx c))
-                | None => seq_r node (fun x => run x path) body st   (* GetBuffer: is a buffer, shared, no release *)
+                | None => seq_r sink_st node (fun x => run sink_st sink cap sw flusher esc env benv senv cnt cancel x path) body st
+                                                                 (* GetBuffer: is a buffer, shared, no release *)
                 end
-      else seq_r node (fun x => run x path) body st
-  | Join cs => seq_r node (fun x => run x path) cs st            (* join.go *)
+      else seq_r sink_st node (fun x => run sink_st sink cap sw flusher esc env benv senv cnt cancel x path) body st
+  | Join cs => seq_r sink_st node (fun x => run sink_st sink cap sw flusher esc env benv senv cnt cancel x path) cs st   (* join.go *)
   | Flush ch =>                                                  (* flush.go: children, then w.(flusherError).Flush() *)
-      let '(st1, e) := seq_r node (fun x => run x path) ch st in
+      let '(st1, e) := seq_r sink_st node (fun x => run sink_st sink cap sw flusher esc env benv senv cnt cancel x path) ch st in
       match e with
       | Some _ => (st1, e)
-      | None => buffer_flush st1
+      | None => buffer_flush sink_st sink flusher st1
       end
   | Raw h e => match e with                                      (* runtime.go Raw *)
                | Some x => (st, Some (EComp x))
-               | None => do_write sw st h
+               | None => do_write sink_st sink cap sw st h
                end
-  | Func ops => seq_r fop run_op ops st
+  | Func ops => seq_r sink_st fop (run_op sink_st sink cap sw) ops st
   | Nop => (st, None)
   | If c thn els =>                                              (* if c { thn } else { els }, every statement checked *)
-      if test path c then seq_r node (fun x => run x path) thn st
-      else seq_r node (fun x => run x path) els st
+      if test benv senv path c
+      then seq_r sink_st node (fun x => run sink_st sink cap sw flusher esc env benv senv cnt cancel x path) thn st
+      else seq_r sink_st node (fun x => run sink_st sink cap sw flusher esc env benv senv cnt cancel x path) els st
   | For id body =>                                               (* generator.go writeForExpression: the body once per element;
                                                                     `return err` inside the body leaves the loop and the template *)
-      seq_r nat (fun k => seq_r node (fun x => run x (k :: path)) body) (seq 0 (cnt path id)) st
+      seq_r sink_st nat (fun k => seq_r sink_st node (fun x => run sink_st sink cap sw flusher esc env benv senv cnt cancel x (k :: path)) body)
+            (seq 0 (cnt path id)) st
+  | Host k times ch =>                                           (* c.Render(templ.WithChildren(ctx, block), buffer), c hand-written *)
+      match k with
+      | HPass =>                                                 (* the block is handed the *runtime.Buffer: shared, no release *)
+          seq_r sink_st nat (fun _ => seq_r sink_st node (fun x => run sink_st sink cap sw flusher esc env benv senv cnt cancel x path) ch)
+                (seq 0 times) st
+      | HFwd limit x own_first =>                                (* its own writer has Write only: no io.StringWriter, no Flush *)
+          host_fwd sink_st sink cap true limit x own_first times
+            (seq_r (hstate * rstate sink_st) node
+                   (fun c => run (hstate * rstate sink_st)%type (fwd_step sink_st sink cap x) cap false false
+                                 esc env benv senv cnt cancel c path) ch) st
+      | HCapture =>
+          host_capture sink_st sink cap true times
+            (seq_r unit node (fun c => run unit buffer_sink cap true false esc env benv senv cnt cancel c path) ch) st
+      end
   end.
 
 (* sync.Pool: Get returns any buffer put back earlier, or a new one *)
@@ -139,26 +235,22 @@ Definition acquire (pool : list bw) (choice : nat) : bw * list bw :=
 
 (* Render of a generated template (or block closure) on a destination that is not a *runtime.Buffer.
    reset = true is the code (GetBuffer calls Buffer.Reset); reset = false is kept to show what the Reset is for. *)
-Definition render_top (reset : bool) (pool : list bw) (choice : nat) (g : bool) (body : list node) (w0 : worldT)
-  : option err * worldT * list bw :=
+Definition render_top (sink_st : Type) (sink : sink_st -> bytes -> nat * option err * sink_st) (cap : nat) (sw flusher : bool)
+                      (esc : bytes -> bytes) (env : list nat -> N -> bytes * option N) (benv : list nat -> N -> bool)
+                      (senv : list nat -> N -> nat) (cnt : list nat -> N -> nat) (cancel : option N)
+                      (reset : bool) (pool : list bw) (choice : nat) (g : bool) (body : list node) (w0 : world sink_st)
+  : option err * world sink_st * list bw :=
   match (if g then cancel else None) with
   | Some c => (Some (ECtx c), w0, pool)
   | None =>
       let '(b0, pool1) := acquire pool choice in
       let b := if reset then bw_reset b0 else b0 in
-      let '(st1, e) := seq_r node (fun x => run x []) body {| rb := b; rw := w0 |} in
-      let '(st2, fe) := buffer_flush st1 in                         (* deferred ReleaseBuffer *)
+      let '(st1, e) := seq_r sink_st node (fun x => run sink_st sink cap sw flusher esc env benv senv cnt cancel x []) body {| rb := b; rw := w0 |} in
+      let '(st2, fe) := buffer_flush sink_st sink flusher st1 in                         (* deferred ReleaseBuffer *)
       (match e with Some x => Some x | None => fe end, rw st2, rb st2 :: pool1)
   end.
-End Skel.
-
-Arguments rb {sink_st} _.
-Arguments rw {sink_st} _.
 
 (* ---------- sequences of renders sharing the two pools ---------- *)
-(* bytes.Buffer as a destination: accepts everything, implements io.StringWriter, no Flush *)
-Definition buffer_sink (s : unit) (p : bytes) : nat * option err * unit := (length p, None, tt).
-
 Section Jobs.
 Variable sink_st : Type.
 Variable sink : sink_st -> bytes -> nat * option err * sink_st.
